@@ -544,6 +544,7 @@ RULES = {
     "R11c": Rule("R11c", "assert_eq!(A, B, ..) -> __assert(A == B)", "assert_eq ! ( $$a , $$b )", "__assert ( $$a == $$b )"),
     "R11e": Rule("R11e", "assert_eq!(A, B, MSG..) -> __assert(A == B)", "assert_eq ! ( $$a , $$b , $$m )", "__assert ( $$a == $$b )"),
     "R11f": Rule("R11f", "X.expect(MSG) -> X.expect__()  (Option::expect: panics iff None; dual-world model)", ". expect ( $m )", ". expect__ ( )"),
+    "R11g": Rule("R11g", "assert_ne!(A, B) -> __assert(A != B)", "assert_ne ! ( $$a , $$b )", "__assert ( $$a != $$b )"),
     "R11d": Rule("R11d", "unreachable!() -> __unreachable()", "unreachable ! ( $$m )", "__unreachable ( )"),
     # std idioms over closures that this vstd cannot specify (default methods of Iterator): replaced by
     # helper functions whose contracts state the std semantics of the whole expression (prelude/std_specs.rs)
@@ -615,6 +616,12 @@ RULES = {
     "R10s": Rule("R10s", "for e in V[D..].iter_mut() { BODY } (V: Vec<T>) -> index loop from D",
                  "for $e in $v [ $d .. ] . iter_mut ( ) { $$body }",
                  "{ let mut i__ = $d ; while i__ < $v . len ( ) { let $e = & mut $v . as_mut_slice ( ) [ i__ ] ; i__ += 1 ; $$body } }"),
+    "R10y2": Rule("R10y2", "for (a, b) in A.iter_mut().zip(B.iter()) { BODY } (A: &mut [T], B: &[T]) -> index loop over min(len A, len B), b = &B[i]",
+                 "for ( $a , $b ) in $x . iter_mut ( ) . zip ( $y . iter ( ) ) { $$body }",
+                 "{ let mut i__ = 0 ; let n__ = Ord :: min ( $x . len ( ) , $y . len ( ) ) ; while i__ < n__ { let $a = & mut $x [ i__ ] ; let $b = & $y [ i__ ] ; i__ += 1 ; $$body } }"),
+    "R10t": Rule("R10t", "for (i, (a, b)) in X.iter().zip(Y.iter()).enumerate().take(N) { BODY } -> index loop over min(len X, len Y, N) with a = &X[i], b = &Y[i]",
+                 "for ( $i , ( $a , $b ) ) in $x . iter ( ) . zip ( $y . iter ( ) ) . enumerate ( ) . take ( $$n ) { $$body }",
+                 "{ let mut i__ = 0 ; let n__ = Ord :: min ( Ord :: min ( $x . len ( ) , $y . len ( ) ) , $$n ) ; while i__ < n__ { let $i = i__ ; let $a = & $x [ i__ ] ; let $b = & $y [ i__ ] ; i__ += 1 ; $$body } }"),
     "R10w": Rule("R10w", "for a in V.iter_mut() { BODY } (V: Vec<T>) -> index loop",
                  "for $a in $$v . iter_mut ( ) { $$body }",
                  "{ let mut i__ = 0 ; while i__ < $$v . len ( ) { { let $a = & mut $$v . as_mut_slice ( ) [ i__ ] ; i__ += 1 ; $$body } } }"),
@@ -680,6 +687,8 @@ RULES = {
     "R3y": Rule("R3y", "n_min_1 * s + q -> Add::add(Mul::mul(n_min_1, s), q)", "n_min_1 * s + q", "Add :: add ( Mul :: mul ( n_min_1 , s ) , q )"),
     "R3z": Rule("R3z", "&*self / other -> Div::div(&*self, other)", "& * self / other", "Div :: div ( & * self , other )"),
     "R3zr": Rule("R3zr", "&*self % other -> Rem::rem(&*self, other)", "& * self % other", "Rem :: rem ( & * self , other )"),
+    "R3bb": Rule("R3bb", "((yi & !xi) | ((yi | !xi) & zi)) with xi, yi: &u64 -> the same on *xi, *yi  (std: bit operators on &u64 act on the referenced values)",
+                 "( ( yi & ! xi ) | ( ( yi | ! xi ) & zi ) )", "( ( * yi & ! * xi ) | ( ( * yi | ! * xi ) & zi ) )"),
     "R3i": Rule("R3i", "rem.into() -> From::from(rem)  (std: blanket `impl Into<U> for T where U: From<T>`)", "rem . into ( )", "From :: from ( rem )"),
     "R3o": Rule("R3o", "One::one() -> BigUint::one()  (the impl selected by the return type)", "One :: one ( )", "BigUint :: one ( )"),
     "R12g": Rule("R12g", "BigDigit::from_u128(x) -> __digit_from_u128(x)  (num_traits::FromPrimitive on u64: external crate; helper carries the assumed contract)",
